@@ -401,9 +401,8 @@ def skips_component(doc, parts):
 
 def classify(spec, doc):
     """which known deviation class (if any) an operator-result mismatch falls in: `boolnum`,
-    `nonnumeric-component-skipped` (a path component that is no index is dropped when it meets an
-    array) and `pullall-array-element` ($pullAll from an array that is an element of an array,
-    path ending in its index, pulls nothing); $pullAll on a missing path, duplicates inside
+    and `nonnumeric-component-skipped` (a path component that is no index is dropped when it meets
+    an array); $pullAll from an array that is an item of an array, $pullAll on a missing path, duplicates inside
     $addToSet.$each, $min/$max on an array element and $pull with a path into an array are
     repaired and no longer excused."""
     if not isinstance(spec, dict):
@@ -423,17 +422,6 @@ def classify(spec, doc):
             if any(isinstance(a, bool) != isinstance(b, bool) and a == b
                    for a in pool for b in pool):
                 return 'boolnum'
-    b1 = spec.get('$pullAll')
-    if isinstance(b1, dict):
-        # the array to pull from is itself an element of an array (path ends in an index): the
-        # code asks `'0' in <list>` for "does the field exist", which never holds - nothing is pulled
-        for p in b1:
-            parts = str(p).split('.')
-            if len(parts) >= 2 and parts[-1].isdigit():
-                par = refupdate.get_at(doc, parts[:-1])
-                if par[0] == 'value' and isinstance(par[1], list) and \
-                        int(parts[-1]) < len(par[1]) and isinstance(par[1][int(parts[-1])], list):
-                    return 'pullall-array-element'
     for op in ('$pullAll', '$pull'):
         b2 = spec.get(op)
         if isinstance(b2, dict):
